@@ -3,6 +3,7 @@ import GnoVerif.Proofs.C28NonInt
 import GnoVerif.Proofs.C28Inv
 import GnoVerif.Proofs.C28Vers
 import GnoVerif.Proofs.C28Refs
+import GnoVerif.Proofs.C28Order
 /-!
 C28: reachability, the invariants on reachable states, the `SingleHeight` predicate, and the
 concrete witness traces (each with the kernel-checked fact that the model accepts it).
@@ -24,6 +25,10 @@ theorem reachable_cinv (s : State) (hr : Reachable s) : CInv s.cons := by
 theorem reachable_rinv (s : State) (hr : Reachable s) : RInv s := by
   rcases hr with ⟨a, k, b, tr, h⟩
   exact rinv_run tr _ s (rinv_init a k b) h
+
+theorem reachable_oinv (s : State) (hr : Reachable s) : OInv s := by
+  rcases hr with ⟨a, k, b, tr, h⟩
+  exact oinv_run tr _ s (rinv_init a k b) (oinv_init a k b) h
 
 /-- all non-own reads of the query are the state of one committed height. -/
 def SingleHeight (c : Cons) (q : Query) : Prop :=
